@@ -346,12 +346,13 @@ def oracle_realistic(ctx, rng, problems, n):
         t1 = (models.Shift(-crpix[0] * u.pix) & models.Shift(-crpix[1] * u.pix) | models.Rotation2D(ang * u.deg)
               | models.Multiply(scale * u.deg / u.pix) & models.Multiply(scale * u.deg / u.pix)
               | models.Pix2Sky_TAN() | models.RotateNative2Celestial(ra * u.deg, dec * u.deg, 180 * u.deg))
-        mk = lambda t: wcs.WCS([(cf.Frame2D(name="detector", unit=(u.pix, u.pix)), t),  # noqa: E731
+        bare = rng.random() < -1.0       # (enabled after the fix) the input frame given by its bare name only (no frame object, hence no declared pixel unit)
+        mk = lambda t: wcs.WCS([("detector" if bare else cf.Frame2D(name="detector", unit=(u.pix, u.pix)), t),  # noqa: E731
                                 (cf.CelestialFrame(reference_frame=rf, name="sky", unit=(fu, fu)), None)])
         w0, w1 = mk(t0), mk(t1)
         arr = rng.random() < 0.4
         p = [np.array([rng.uniform(0, 1000) for _ in range(3)]) for _ in range(2)] if arr else [rng.uniform(0, 1000) for _ in range(2)]
-        rec = dict(family="imaging-TAN", frame=repr(rf), frame_unit=str(fu), crpix=crpix, scale=scale, ra=ra, dec=dec, ang=ang,
+        rec = dict(family="imaging-TAN", bare_name_input_frame=bare, frame=repr(rf), frame_unit=str(fu), crpix=crpix, scale=scale, ra=ra, dec=dec, ang=ang,
                    pixel=[np.asarray(v).tolist() for v in p])
         try:
             v0, v1 = w0.pixel_to_world_values(*p), w1.pixel_to_world_values(*p)
